@@ -94,7 +94,7 @@ func checkC08(c *Ctx) {
 	ruleR14analog(c, dv, "R8.6")
 	ruleDispatch(c, dv, "R8.7", false, true)
 	ruleNoDropBeforeCase(c, dv, "R8.9", []string{"AnalogKeySim"}) // and is not dropped by a filter in front of the switch
-	ruleR13(c, dv, "R8.8") // only the analog note functions (and NewDevice) write the trackers: an entry removed elsewhere is a note that is never released // every axis report reaches the key-emulation switch, whatever its raw value
+	ruleR13(c, dv, "R8.8")                                        // only the analog note functions (and NewDevice) write the trackers: an entry removed elsewhere is a note that is never released // every axis report reaches the key-emulation switch, whatever its raw value
 	pf := newParserFacts(c)
 	if c.Require(pf.err == nil, "R8.5", "config.ParseData", fmt.Sprint(pf.err)) {
 		leaves := tomlLeaves(c)
@@ -102,6 +102,7 @@ func checkC08(c *Ctx) {
 			return dest == "Analog.Note" || dest == "Analog.NoteNeg" || dest == "Analog.Bidirectional"
 		})
 	}
+	c.importRules(configIntactRules, []string{"R3.7"}, "R8.10") // axis mappings (notes, offsets) are read from an unmodified copy of the parsed configuration
 	c.MinCount("R8.1", 5)
 	c.MinCount("R8.4", 1)
 	c.MinCount("R8.5", 3)
@@ -582,7 +583,8 @@ func checkC07(c *Ctx) {
 		}
 	}
 	sort.Strings(ws)
-	ruleDispatch(c, dv, "R7.6", false, true) // every axis report (incl. the one that crosses the centre) reaches the side logic
+	ruleDispatch(c, dv, "R7.6", false, true)                   // every axis report (incl. the one that crosses the centre) reaches the side logic
+	c.importRules(configIntactRules, []string{"R3.7"}, "R7.7") // controller numbers and offsets are read from an unmodified copy of the parsed configuration
 	c.MinCount("R7.1", 5)
 	c.MinCount("R7.4", 1)
 	c.MinCount("R7.5", 2)
